@@ -38,7 +38,9 @@ def _scripts(ctx, res, cfg, prefix, impl=None, limit=None):
             continue
         out.append({"name": "%s-%s-%d" % (prefix, "cex" if tag == "CEX" else "beh", i),
                     "backend": impl or c["backend"], "init": c["init"], "buf": c["buf"], "sameaddr": c["sameaddr"],
-                    "steps": obj["steps"], "sent": obj["sent"], "why": obj["why"], "wpc": obj["wpc"], "tags": obj["tags"]})
+                    "steps": obj["steps"], "sent": obj["sent"], "why": obj["why"], "wpc": obj["wpc"], "tags": obj["tags"],
+                    # both cases of SyncChain's final select were ready: Go picks one at random
+                    "nondet": any(st["a"] == "End" and st["x"] == 1 for st in obj["steps"])})
     if limit and len(out) > limit:
         # seed-selected sample, counterexamples first
         import random
@@ -116,7 +118,7 @@ def run(ctx, monitors):
             scripts += _enumerate(ctx, "Sim_SyncServe_w2.cfg", "w2-bolt", limit=60)
         n = 40 if q else 400
         scripts += _simulate(ctx, "Sim_SyncServe_two.cfg", "two-bolt", n, 200)
-        scripts += _simulate(ctx, "Sim_SyncServe_same.cfg", "same-bolt", n, 200)
+        scripts += _simulate(ctx, "Sim_SyncServe_same.cfg", "same-bolt", 150 if q else 600, 200)
         if not q:
             scripts += _simulate(ctx, "Sim_SyncServe_two.cfg", "two-boltu", 100, 200, impl="boltu")
     if c12:
@@ -146,6 +148,8 @@ def run(ctx, monitors):
     seen = {}
     for tp, (ok, alarms, res) in zip(traces, results):
         allok = allok and ok
+        with open(tp.replace(".ndjson", "-alarms.json"), "w") as fh:
+            json.dump(alarms, fh, indent=0)
         if ok:
             ctx.traces += count_lines(tp, "Reset")
         for a in alarms:
